@@ -272,3 +272,25 @@ def shape_manifest(kind, layout, shape, dep=None):
 def manifest_family():
     """every (kind, layout, shape)"""
     return [(k, l, sh) for k, layouts in MANIFEST_LAYOUTS.items() for l in layouts for sh in MANIFEST_SHAPES]
+
+
+# ---- encoding variants of a manifest (bytes) ---------------------------------------------------------------------------------
+MANIFEST_ENCODINGS = ["utf-16-le-bom", "utf-16-be-bom", "utf-8-bom", "latin-1-comment"]
+
+
+def encode_manifest(kind, text, enc):
+    import codecs
+    if enc == "utf-16-le-bom":
+        return codecs.BOM_UTF16_LE + text.encode("utf-16-le")
+    if enc == "utf-16-be-bom":
+        return codecs.BOM_UTF16_BE + text.encode("utf-16-be")
+    if enc == "utf-8-bom":
+        return codecs.BOM_UTF8 + text.encode("utf-8")
+    if enc == "latin-1-comment":
+        data = ("# d\u00e9pendances g\u00e9r\u00e9es \u00e0 la main\n" + text).encode("latin-1")
+        try:
+            data.decode("utf-8")
+        except UnicodeDecodeError:
+            return data
+        raise AssertionError("latin-1 variant decodes as UTF-8")
+    raise ValueError(enc)
